@@ -181,11 +181,13 @@ def _upstream_none_region(b, fl, vf, pollbb, dest):
     """Blocks where the upstream poll result is known Ready(None) (directly or through the `?` branch temp)."""
     out = set()
     for bb, facts in vf.items():
-        if not b.dominates(pollbb, bb):
-            continue
-        # direct: (dest, Ready) & ((dest as Ready).0, None)
+        # direct: (dest, Ready) & ((dest as Ready).0, None) -- a must-fact about the poll's own destination, which has no
+        # other definition, so every path to bb ran the poll (dominance not needed: the result may have been wrapped
+        # and matched after a join)
         if (dest, "Ready") in facts and ("(%s as Ready).0" % dest, "None") in facts:
             out.add(bb)
+            continue
+        if not b.dominates(pollbb, bb):
             continue
         # via Try::branch: a place derived from a call chain containing the poll, with Continue/Ready/None facts
         for (p, v) in facts:
